@@ -92,6 +92,19 @@ pub struct MetadataInvalidKeyTypeError {
     span: Span,
 }
 
+#[derive(Debug, thiserror::Error, miette::Diagnostic, PartialEq, Eq, Clone)]
+#[error("{message}")]
+#[diagnostic(code(tx3::invalid_construct))]
+pub struct InvalidConstructError {
+    pub message: String,
+
+    #[source_code]
+    src: Option<String>,
+
+    #[label]
+    span: Span,
+}
+
 #[derive(thiserror::Error, Debug, miette::Diagnostic, PartialEq, Eq, Clone)]
 pub enum Error {
     #[error("duplicate definition: {0}")]
@@ -126,6 +139,11 @@ pub enum Error {
     #[error(transparent)]
     #[diagnostic(transparent)]
     InvalidOptionalOutput(#[from] OptionalOutputError),
+
+    // a construct that resolves but cannot be lowered
+    #[error(transparent)]
+    #[diagnostic(transparent)]
+    InvalidConstruct(#[from] InvalidConstructError),
 }
 
 impl Error {
@@ -137,6 +155,7 @@ impl Error {
             Self::MetadataSizeLimitExceeded(x) => &x.span,
             Self::MetadataInvalidKeyType(x) => &x.span,
             Self::InvalidOptionalOutput(x) => &x.span,
+            Self::InvalidConstruct(x) => &x.span,
             _ => &Span::DUMMY,
         }
     }
@@ -187,6 +206,14 @@ impl Error {
             got: Self::symbol_type_name(got),
             src: None,
             span: ast.span().clone(),
+        })
+    }
+
+    pub fn invalid_construct(message: String, span: &Span) -> Self {
+        Self::InvalidConstruct(InvalidConstructError {
+            message,
+            src: None,
+            span: span.clone(),
         })
     }
 
@@ -513,7 +540,16 @@ impl Analyzable for PolicyDef {
     fn analyze(&mut self, parent: Option<Rc<Scope>>) -> AnalyzeReport {
         match &mut self.value {
             PolicyValue::Constructor(x) => x.analyze(parent),
-            PolicyValue::Assign(_) => AnalyzeReport::default(),
+            PolicyValue::Assign(x) => {
+                if hex::decode(&x.value).is_err() {
+                    AnalyzeReport::from(Error::invalid_construct(
+                        format!("invalid hex literal 0x{}", x.value),
+                        &x.span,
+                    ))
+                } else {
+                    AnalyzeReport::default()
+                }
+            }
         }
     }
 
@@ -622,6 +658,21 @@ impl Analyzable for VariantCaseConstructor {
 
         let spread = self.spread.analyze(parent.clone());
 
+        // every field of the case needs a value: an explicit one, or the spread's
+        if self.spread.is_none() {
+            for field in case.fields.iter() {
+                if self.find_field_value(&field.name.value).is_none() {
+                    fields.errors.push(Error::invalid_construct(
+                        format!(
+                            "missing field '{}' of '{}' (and no spread to take it from)",
+                            field.name.value, self.name.value
+                        ),
+                        &self.span,
+                    ));
+                }
+            }
+        }
+
         name + fields + spread
     }
 
@@ -660,7 +711,17 @@ impl Analyzable for StructConstructor {
 
         self.scope = Some(Rc::new(scope));
 
-        let case = self.case.analyze(self.scope.clone());
+        let mut case = self.case.analyze(self.scope.clone());
+
+        if type_def.find_case_index(&self.case.name.value).is_none() && case.is_empty() {
+            case.errors.push(Error::invalid_construct(
+                format!(
+                    "'{}' is not a case of '{}'",
+                    self.case.name.value, type_def.name.value
+                ),
+                &self.span,
+            ));
+        }
 
         r#type + case
     }
@@ -706,7 +767,31 @@ impl Analyzable for DataExpr {
             DataExpr::StructConstructor(x) => x.analyze(parent),
             DataExpr::ListConstructor(x) => x.analyze(parent),
             DataExpr::MapConstructor(x) => x.analyze(parent),
-            DataExpr::Identifier(x) => x.analyze(parent),
+            DataExpr::Identifier(x) => {
+                let report = x.analyze(parent);
+
+                // only these symbols denote a value
+                match &x.symbol {
+                    Some(
+                        symbol @ (Symbol::TypeDef(_)
+                        | Symbol::AliasDef(_)
+                        | Symbol::VariantCase(_)
+                        | Symbol::AssetDef(_)
+                        | Symbol::Function(_)),
+                    ) => report + AnalyzeReport::from(Error::invalid_symbol("value", symbol, x)),
+                    _ => report,
+                }
+            }
+            DataExpr::HexString(x) => {
+                if hex::decode(&x.value).is_err() {
+                    AnalyzeReport::from(Error::invalid_construct(
+                        format!("invalid hex literal 0x{}", x.value),
+                        &x.span,
+                    ))
+                } else {
+                    AnalyzeReport::default()
+                }
+            }
             DataExpr::AddOp(x) => x.analyze(parent),
             DataExpr::SubOp(x) => x.analyze(parent),
             DataExpr::NegateOp(x) => x.analyze(parent),
@@ -752,6 +837,62 @@ impl Analyzable for crate::ast::FnCall {
             args_report = args_report + arg.analyze(parent.clone());
         }
 
+        // what lowering accepts: the built-ins with their arity, or an asset
+        // constructor with its amount
+        let expected_args = match self.callee.value.as_str() {
+            "min_utxo" | "slot_to_time" | "time_to_slot" => Some(1),
+            "tip_slot" => Some(0),
+            _ => match &self.callee.symbol {
+                Some(Symbol::AssetDef(asset)) => {
+                    // a malformed hex literal in the definition is reported where the
+                    // asset is used
+                    for part in [&asset.policy, &asset.asset_name] {
+                        if let DataExpr::HexString(x) = part {
+                            if hex::decode(&x.value).is_err() {
+                                args_report.errors.push(Error::invalid_construct(
+                                    format!(
+                                        "asset {} is defined with the invalid hex literal 0x{}",
+                                        self.callee.value, x.value
+                                    ),
+                                    &self.span,
+                                ));
+                            }
+                        }
+                    }
+
+                    if self.args.is_empty() {
+                        args_report.errors.push(Error::invalid_construct(
+                            format!("{} expects an amount", self.callee.value),
+                            &self.span,
+                        ));
+                    }
+
+                    None
+                }
+                Some(symbol) => {
+                    args_report
+                        .errors
+                        .push(Error::invalid_symbol("function or asset", symbol, &self.callee));
+                    None
+                }
+                None => None,
+            },
+        };
+
+        if let Some(expected) = expected_args {
+            if self.args.len() != expected {
+                args_report.errors.push(Error::invalid_construct(
+                    format!(
+                        "{} expects {} argument(s), got {}",
+                        self.callee.value,
+                        expected,
+                        self.args.len()
+                    ),
+                    &self.span,
+                ));
+            }
+        }
+
         callee + args_report
     }
 
@@ -786,7 +927,25 @@ impl Analyzable for PropertyOp {
 
         self.scope = Some(Rc::new(scope));
 
-        let path = self.property.analyze(self.scope.clone());
+        let mut path = self.property.analyze(self.scope.clone());
+
+        // lowering turns the property into an index using the operand's static type
+        if object.is_empty() && path.is_empty() {
+            match self.operand.target_type() {
+                None => path.errors.push(Error::invalid_construct(
+                    "cannot tell the type of the value whose property is accessed".to_string(),
+                    &self.span,
+                )),
+                Some(ty) => {
+                    if ty.property_index(*self.property.clone()).is_none() {
+                        path.errors.push(Error::invalid_construct(
+                            format!("type {} has no such property", ty),
+                            &self.span,
+                        ));
+                    }
+                }
+            }
+        }
 
         object + path
     }
@@ -814,8 +973,14 @@ impl Analyzable for AddressExpr {
 
 impl Analyzable for AssetDef {
     fn analyze(&mut self, parent: Option<Rc<Scope>>) -> AnalyzeReport {
-        let policy = self.policy.analyze(parent.clone());
-        let asset_name = self.asset_name.analyze(parent.clone());
+        // the validity of a hex literal is checked where the asset is used (FnCall)
+        let analyze_part = |part: &mut DataExpr| match part {
+            DataExpr::HexString(_) => AnalyzeReport::default(),
+            x => x.analyze(parent.clone()),
+        };
+
+        let policy = analyze_part(&mut self.policy);
+        let asset_name = analyze_part(&mut self.asset_name);
 
         let policy_type = AnalyzeReport::expect_data_expr_type(&self.policy, &Type::Bytes);
         let asset_name_type = AnalyzeReport::expect_data_expr_type(&self.asset_name, &Type::Bytes);
@@ -842,7 +1007,13 @@ impl Analyzable for Identifier {
     }
 
     fn is_resolved(&self) -> bool {
-        self.symbol.is_some()
+        // locals and inputs carry a copy of their definition, which lowering follows
+        match &self.symbol {
+            Some(Symbol::LocalExpr(x)) => x.is_resolved(),
+            Some(Symbol::Input(x)) => x.is_resolved(),
+            Some(_) => true,
+            None => false,
+        }
     }
 }
 
@@ -1300,7 +1471,7 @@ impl Analyzable for TxDef {
 
         self.scope = Some(final_scope);
 
-        params
+        let report = params
             + locals
             + inputs
             + outputs
@@ -1311,13 +1482,28 @@ impl Analyzable for TxDef {
             + metadata
             + signers
             + references
-            + collateral
+            + collateral;
+
+        // the passes above resolve definitions that refer to each other only up to a
+        // fixed depth; what is left over (deep or cyclic chains) cannot be lowered
+        if report.is_empty() && !self.is_resolved() {
+            return AnalyzeReport::from(Error::invalid_construct(
+                format!(
+                    "definitions of tx '{}' refer to each other too deeply (or cyclically)",
+                    self.name.value
+                ),
+                &self.span,
+            ));
+        }
+
+        report
     }
 
     fn is_resolved(&self) -> bool {
         self.inputs.is_resolved()
             && self.outputs.is_resolved()
             && self.mints.is_resolved()
+            && self.burns.is_resolved()
             && self.locals.is_resolved()
             && self.adhoc.is_resolved()
             && self.validity.is_resolved()
